@@ -13,6 +13,7 @@ mod ops_parser;
 mod ops_part;
 mod ops_raft;
 mod ops_rel;
+mod ops_snap;
 mod ops_wal;
 
 fn dispatch(req: &Value) -> Value {
@@ -39,6 +40,9 @@ fn dispatch(req: &Value) -> Value {
         return v;
     }
     if let Some(v) = ops_locks::handle(op, req) {
+        return v;
+    }
+    if let Some(v) = ops_snap::handle(op, req) {
         return v;
     }
     if let Some(v) = ops_part::handle(op, req) {
